@@ -92,7 +92,10 @@ SweepForms(c) == << Cp("-type ") \o <<c>>, Cp("-type f,") \o <<c>>, Cp("-type ")
                     Cp("-perm 64") \o <<c>>, Cp("-perm -") \o <<c>>, Cp("-perm /u+w,") \o <<c>>, Cp("-size 1") \o <<c>>, Cp("-size ") \o <<c>> \o Cp("1"),
                     Cp("-mtime 1") \o <<c>>, Cp("-amin ") \o <<c>> \o Cp("1"), Cp("-uid ") \o <<c>> \o Cp("5"), Cp("-uid 5") \o <<c>>,
                     Cp("-links +") \o <<c>>, Cp("-threads ") \o <<c>>, Cp("-name ") \o <<c>>, Cp("-") \o <<c>>, Cp("-print") \o <<c>>,
-                    Cp("-a") \o <<c>>, Cp("-o") \o <<c>>, <<c>> \o Cp("-true"), Cp("-true ") \o <<c>> >>
+                    Cp("-a") \o <<c>>, Cp("-o") \o <<c>>, <<c>> \o Cp("-true"), Cp("-true ") \o <<c>>,
+                    \* a character BETWEEN two digits (a fraction, a thousands separator, an exponent ...)
+                    Cp("-mtime 1") \o <<c>> \o Cp("5"), Cp("-amin +2") \o <<c>> \o Cp("05h"), Cp("-size 1") \o <<c>> \o Cp("5k"), Cp("-uid 1") \o <<c>> \o Cp("5"),
+                    Cp("-links 1") \o <<c>> \o Cp("000"), Cp("-threads 1") \o <<c>> \o Cp("6"), Cp("-perm 6") \o <<c>> \o Cp("4") >>
 \* characters that some classification calls "white space" or "invisible" but that are NOT blanks of the
 \* expression language (VT, FF, NEL, no-break space, the Unicode spaces and separators, BOM, soft hyphen,
 \* zero-width space) and two ordinary non-ASCII characters: inside and around bare words
